@@ -1,3 +1,4 @@
 import Lcapy.Driver.Loop
 import Lcapy.Driver.C02
-def main : IO Unit := Lcapy.Driver.runDriver [Lcapy.Driver.C02.handle, Lcapy.Driver.C09.handle, Lcapy.Driver.C10.handle]
+def main : IO Unit := Lcapy.Driver.runDriver
+  [Lcapy.Driver.C02.handle, Lcapy.Driver.C01.handle, Lcapy.Driver.C09.handle, Lcapy.Driver.C10.handle]
